@@ -251,10 +251,14 @@ def frame(sample, case, start=0):
     # an extra untouched column: the objects must not need it
     d = {c: decs(sample[c]) for c in cols}
     d["other"] = list(range(n))
+    flat = case.get("ord_flat")
+    if flat and "o1" in d:
+        # every level at 1/6 of the rows (6 levels, or 5 levels + NaN): rarer than min_freq = 0.2
+        d["o1"] = [NAN if (flat == "five_nan" and j % 6 == 5) else (ORDER + ["L5"])[j % 6] for j in range(n)]
     if case.get("ord_num") and "o1" in d:
         # the ordinal feature holds numbers 1..5 (floats when it also holds NaN)
-        d["o1"] = [ORDER.index(v) + 1 for v in d["o1"]]
-        if case.get("ord_nan"):
+        d["o1"] = [v if isinstance(v, float) else (ORDER + ["L5"]).index(v) + 1 for v in d["o1"]]
+        if case.get("ord_nan") and not flat:
             for j in range(7, n - 7, 9):
                 d["o1"][j] = NAN
     X = pd.DataFrame(d, index=range(start, start + n))
@@ -284,10 +288,13 @@ def construct(case, overlap=None, sort_by=DEFAULT):
     elif overlap == "quant_ordinal":
         of = of + [qf[0]]
     vo = {f: list(ORDER) for f in of if f == "o1"}
+    k = 6 if case.get("ord_flat") == "six" else 5
+    if k == 6:
+        vo = {f: list(ORDER) + ["L5"] for f in vo}
     if case.get("ord_num") == "strrank":
-        vo = {f: ["1", "2", "3", "4", "5"] for f in vo}
+        vo = {f: [str(j) for j in range(1, k + 1)] for f in vo}
     elif case.get("ord_num") == "numrank":
-        vo = {f: [1, 2, 3, 4, 5] for f in vo}
+        vo = {f: list(range(1, k + 1)) for f in vo}
     if overlap == "quant_ordinal":
         vo[qf[0]] = [0.0, 5.0, 10.0]
     mf, cp = case["min_freq"], case["copy"]
@@ -597,6 +604,21 @@ def all_dropped_kinds(cls):
     return ks
 
 
+def ordinal_id_like(X, case):
+    """the most frequent level of the ordinal feature of the frame given to a first fit is rarer than
+    min_freq (computed as QualitativeDiscretizer._prepare_data does: NaN counted in the denominator only);
+    only for the classes that prepare their qualitative features with QualitativeDiscretizer"""
+    import pandas as pd
+    if case["cls"] not in ORDNUM_CLASSES or not isinstance(X, pd.DataFrame):
+        return False
+    for c in feats_of(case)[2]:
+        if c in X.columns:
+            freq = X[c].value_counts(normalize=True, dropna=False).drop(NAN, errors="ignore")
+            if len(freq) == 0 or freq.max() < case["min_freq"]:
+                return True
+    return False
+
+
 def sort_by_value(v):
     if v == "garbage":
         return "foo"
@@ -640,6 +662,7 @@ def run_case(case):
             X, y, skip = inject(case, obj, X, y, False)
         if skip:
             return {"skip": skip}
+        out["ordinal_id_like"] = ordinal_id_like(X, case)
         out["outcome"], out["error"] = call(lambda: do_fit(obj, X, y, Xd, yd))
         out["fitted_before"] = False
         if mal == "none" and out["outcome"] == "ok":
@@ -759,6 +782,16 @@ class C19(Prop):
             for cls in CLASSES:
                 for kind in all_dropped_kinds(cls):
                     cases.append(gen_all_dropped_case(rng, cls, kind))
+        # known finding O48, exercised on every run: an ordinal feature whose levels are all rarer than
+        # min_freq (6 levels at 1/6, or 5 levels + NaN, min_freq 0.2) with one value absent from the ranking
+        directed = []
+        for _ in range(reps):
+            for cls in ORDNUM_CLASSES:
+                for var, flat in (("cell", "six"), ("absent_int:strrank", "six"), ("absent_int:numrank", "five_nan"),
+                                  ("cell", "five_nan")):
+                    c = gen_case(rng, cls, "fit", "ordinal_unknown", var)
+                    c["ord_flat"], c["min_freq"], c["dev"], c["new_dev"] = flat, 0.2, None, None
+                    directed.append(c)
         # carvers first (O5 was observed on BaseCarver.fit), MulticlassCarver without ordinal feature next
         prio = {"BinaryCarver": 0, "ContinuousCarver": 1, "MulticlassCarver": 2}
         cases.sort(key=lambda c: (prio.get(c["cls"], 3) + (1 if c["cls"] == "MulticlassCarver" and c["feats"]["o"] else 0)))
@@ -767,7 +800,7 @@ class C19(Prop):
                 for ep, mal, var in all_triples(cls):
                     if (ep, mal) != ("refit", "second_fit"):
                         cases.append(gen_case(rng, cls, ep, mal, var))
-        return cases
+        return cases + directed
 
     def search_cases(self, rng, neighbours, rnd):
         cases = []
@@ -874,7 +907,8 @@ class C19(Prop):
         f["has_ordinal"] = bool(case["feats"]["o"])
         order2 = ["y_is_01", "y_has_str", "y_all_str", "feature_overlap", "quant_has_str",
                   "ordinal_unknown_value", "sort_by_ok", "has_ordinal",
-                  "ydev_given", "dev_index_same_len", "ydev_classes_ok", "ydev_has_str"]
+                  "ydev_given", "dev_index_same_len", "ydev_classes_ok", "ydev_has_str", "ordinal_id_like"]
+        f["ordinal_id_like"] = bool(out.get("ordinal_id_like"))
         return ("(mkInput " + " ".join(C.cbool(f[k]) for k in order) + f" {C.cnat(f['n_classes'])} "
                 + " ".join(C.cbool(f[k]) for k in order2) + ")")
 
@@ -925,6 +959,9 @@ class C19(Prop):
                 sigs.append("x_dev_without_y_dev_not_asserted")
             elif mal == "y_str" and cls == "ContinuousCarver" and case["var"].endswith("@dev"):
                 sigs.append("y_dev_str_not_asserted:ContinuousCarver")
+            elif (mal == "ordinal_unknown" and ep == "fit" and res == "ok" and cls in ORDNUM_CLASSES
+                  and out.get("ordinal_id_like")):
+                sigs.append("ordinal_absent_value_unnoticed_when_feature_dropped_as_id_like")
             # repaired mechanisms (a regression shows up under these names)
             elif mal in ("n_classes", "y_str") and case["var"].endswith("@dev"):
                 sigs.append("y_dev_wrong_classes_not_asserted")
